@@ -12,7 +12,7 @@ import ecc_util as eu
 
 LEAN_MODULES = ["Pff.Props.C04"]
 PROP_MODULE = "Pff.Props.C04"
-THEOREMS = ["Pff.Ecc.C04_block", "Pff.Ecc.C04_intact_untouched", "Pff.Ecc.C04_failed_copied", "Pff.Ecc.C04_length_header",
+THEOREMS = ["Pff.Ecc.C04_truncated_ecc_needs_hash", "Pff.Ecc.C04_block", "Pff.Ecc.C04_intact_untouched", "Pff.Ecc.C04_failed_copied", "Pff.Ecc.C04_length_header",
             "Pff.Ecc.C04_length_whole", "Pff.Ecc.C04_blockwise_header", "Pff.Ecc.C04_blockwise_whole", "Pff.Ecc.C04_failed_not_complete",
             "Pff.Ecc.C04_exit", "Pff.Ecc.C04_results_wf"]
 MODELLED = [("pyFileFixity/header_ecc.py", "main"), ("pyFileFixity/header_ecc.py", "entry_assemble"),
@@ -136,6 +136,10 @@ def oracle(P, content0, content1, ecc1, res, recorded):
     return errs
 
 
+def it_directed(i):
+    return i % 5 == 3
+
+
 def gen_scenario(rng, tier):
     P = es.gen_params(rng, small=True)
     P.mbs = max(P.mbs, 5)
@@ -179,7 +183,29 @@ def run(oc, tier, seed, model_available, escalate):
         tk = rng.choice(["none", "none", "few", "many", "burst", "zeros", "truncate", "all"])
         content1 = bytes(damage_bytes(rng, content0, fk))
         track = ecc0[f["track"][0]:]
-        if tk == "truncate":
+        tl, _tot = es.track_layout(P, len(content0))
+        if it_directed(i) and len(tl) >= 2 and all(pl >= 2 for (_b, _h, _p, pl) in tl):
+            # directed class: the stored parity of an INTACT block (hash intact too) is replaced by the valid parity of a slightly different
+            # block, so that block+parity decodes to that other block; another block of the file is damaged so that the rebuild pass runs.
+            # In the default checking mode the hash-matching block must not be altered.
+            fk, tk = "one-other-block", "parity_swap"
+            j = rng.randrange(len(tl))
+            i2 = rng.choice([x for x in range(len(tl)) if x != j])
+            (off, ln, k), ho, po, pl = tl[j]
+            blk = bytearray(content0[off:off + ln])
+            for pos in rng.sample(range(ln), min(ln, rng.randint(1, max(1, pl // 2)))):
+                blk[pos] ^= rng.randrange(1, 256)
+            cu.manager(P.algo, P.mbs, 1)
+            with common.quiet():
+                par2 = bytes(cu.manager(P.algo, P.mbs, 1).encode(bytes(blk), k=k))
+            t_ = bytearray(track)
+            t_[po:po + pl] = par2
+            track = bytes(t_)
+            (off2, ln2, _k2), _h2, _p2, _pl2 = tl[i2]
+            c_ = bytearray(content0)
+            c_[off2 + rng.randrange(ln2)] ^= 0x5A
+            content1 = bytes(c_)
+        elif tk == "truncate":
             track = track[:rng.randint(0, len(track))]
         else:
             track = bytes(damage_bytes(rng, track, tk))
